@@ -3,8 +3,10 @@ C02's chain kernel shares this scenario (see c02.py).
 
 K3  bounded run from genesis: a symbolic chain (transaction hashes, script bytes, values, spend
     selectors, activation height all symbolic) is indexed by the real advance_block with a
-    flush schedule taken from the shape (none / history-only / full after each block), then
-    flushed, and every read path is compared with an independent reference indexer.
+    flush schedule taken from the shape (none / history-only / full after each block, also right
+    after the last block), then flushed, and every read path is compared with an independent
+    reference indexer; some shapes split the flat files into tiny physical files (two records
+    each) so that reads and writes cross file boundaries.
 K1  layout round trip with fully symbolic UTXO records (tx hash, index, hashX, tx number,
     value): real flush_utxo_db, spend_utxo, all_utxos, lookup_utxos.
 """
@@ -19,6 +21,7 @@ def k3(shape, *, history=False, utxos=True):
     eng = engine()
     sim = chain.Sim(reorg_limit=10, daemon_height=shape.get('daemon_height', 100))
     sim.collide = {frozenset(p) for p in shape.get('collide', [])}
+    sim.world.small_files = shape.get('small_files', False)
     try:
         sim.open()
         for bi, (bspec, fl) in enumerate(zip(shape['blocks'], shape['flush'])):
@@ -58,16 +61,21 @@ def _blocks(tier):
     ]
     if tier == 'quick':
         return quick
+    # thorough-only chains: longer / denser, at most one symbolic script each (two or three make a single shape run
+    # for more than ten minutes; measured)
+    cbAB = {'cb': 'AB'}
+    b_spend2c = {'cb': 'B', 'txs': [{'ins': 2, 'outs': 'C'}]}
+    b_chainc = {'cb': 'A', 'txs': [{'ins': 1, 'outs': 'AB'}, {'ins': 1, 'outs': 'C'}]}
     more = [
-        ([b_cb_AS, b_chain], []),
-        ([b_cb_AS, b_spend1, b_spend2], []),
-        ([b_cb_S, b_chain, b_spend1], []),
-        ([{'cb': 'SA'}, {'cb': 'S', 'txs': [{'ins': 1, 'outs': 'A'}]}, b_chain], []),
-        ([b_cb_AS, {'cb': 'A', 'txs': [{'ins': 1, 'outs': 'S'}, {'ins': 1, 'outs': 'S'}]}], []),
-        ([{'cb': 'AAA'}, {'cb': 'B', 'txs': [{'ins': 2, 'outs': 'SS'}]}, b_spend2], []),
+        ([cbAB, b_chain], []),
+        ([cbAB, b_spend1, b_spend2c], []),
+        ([b_cb_S, b_chainc, {'cb': 'A', 'txs': [{'ins': 1, 'outs': 'BA'}]}], []),
+        ([{'cb': 'CA'}, {'cb': 'S', 'txs': [{'ins': 1, 'outs': 'A'}]}, b_chainc], []),
+        ([cbAB, {'cb': 'A', 'txs': [{'ins': 1, 'outs': 'S'}, {'ins': 1, 'outs': 'C'}]}], []),
+        ([{'cb': 'AAA'}, {'cb': 'B', 'txs': [{'ins': 2, 'outs': 'SC'}]}, b_spend2c], []),
         ([{'cb': 'AB'}, {'cb': 'BA'}, {'cb': 'C', 'txs': [{'ins': 2, 'outs': 'S'}]}],
          [['b0t0', 'b1t0'], ['b0t0', 'final_absent'], ['b1t0', 'final_absent']]),
-        ([b_cb_AS, b_chain], [['b0t0', 'b1t1'], ['b1t1', 'b1t2'], ['b0t0', 'b1t2']]),
+        ([cbAB, b_chain], [['b0t0', 'b1t1'], ['b1t1', 'b1t2'], ['b0t0', 'b1t2']]),
     ]
     return quick + more
 
@@ -96,6 +104,11 @@ def k3_shapes(tier):
     for blocks in lists:
         for fl, reopen in (tails[:3] if tier == 'quick' else tails):
             out.append({'blocks': blocks, 'flush': fl, 'reopen': reopen, 'collide': []})
+    # the flat files split into tiny physical files (two records each): reads and writes cross file boundaries
+    b3 = [{'cb': 'A'}, {'cb': 'A', 'txs': [{'ins': 1, 'outs': 'AB'}, {'ins': 1, 'outs': 'S'}]}, {'cb': 'B', 'txs': [{'ins': 1, 'outs': 'C'}]}]
+    for fl in ([['f', 'n', 'n'], ['f', 'h', 'n']] if tier == 'quick' else
+               [['f', 'n', 'n'], ['f', 'h', 'n'], ['n', 'n', 'n'], ['h', 'f', 'n'], ['n', 'f', 'n']]):
+        out.append({'blocks': b3, 'flush': fl, 'reopen': True, 'collide': [], 'small_files': True})
     return out
 
 
@@ -355,9 +368,11 @@ KERNELS = [
                   '<= 3 outputs; symbolic: all transaction hashes (32 bytes, pairwise distinct, prefixes free), '
                   'values (64 bit, <= 21e14), scripts marked S/s (3 / 1 symbolic bytes; others concrete incl. '
                   'OP_RETURN, OP_FALSE OP_RETURN, empty), spend selectors (every valid spend graph), activation '
-                  'height (any integer); flush schedule enumerated (none / history-only / full after each block)',
+                  'height (any integer); flush schedule enumerated (none / history-only / full after each block, incl. '
+                  'right after the last one); 2 (quick) / 5 (thorough) shapes with the flat files split into physical '
+                  'files of two records each',
            outside='longer chains, more transactions per block, prefetch batching (not part of the index state), '
-                   'RocksDB',
+                   'RocksDB; flat files of the real physical size (16 MB / 2 MB) - the split is exercised at a scaled size',
            assumptions=['LevelDB modelled by MemStore (sorted iteration, atomic batches)',
                         'meta files modelled by MemFS'],
            witnesses=1, prescribe=('sha256',), split_depth=14),
